@@ -238,6 +238,39 @@ fn tok_target(op: &Op) -> Option<Id> {
     }
 }
 
+/// (owner, nominee) of a contract as the implementation stores them
+pub fn roles(c: &Chain, target: Id) -> Option<(Id, Id)> {
+    use cosmwasm_std::testing::MockApi;
+    use cosmwasm_std::Api;
+    let api = MockApi::default();
+    let hum = |x: &cosmwasm_std::CanonicalAddr| api.addr_humanize(x).map(|a| id_of(a.as_str())).unwrap_or(0);
+    match target {
+        HUB => {
+            let cfg: basset::hub::ConfigResponse = c.q(HUB, &basset::hub::QueryMsg::Config {}).ok()?;
+            let no: basset::hub::NewOwnerResponse = c.q(HUB, &basset::hub::QueryMsg::NewOwner {}).ok()?;
+            Some((id_of(&cfg.owner), id_of(&no.new_owner)))
+        }
+        REWARD => {
+            let st = c.stores.get(&REWARD)?;
+            let cfg = basset_sei_reward::state::read_config(st).ok()?;
+            let no = basset_sei_reward::state::read_new_owner(st).ok()?;
+            Some((hum(&cfg.owner), hum(&no.new_owner_addr)))
+        }
+        DISP => {
+            let cfg: basset::dispatcher::ConfigResponse = c.q(DISP, &basset_sei_rewards_dispatcher::msg::QueryMsg::Config {}).ok()?;
+            let no: basset::dispatcher::NewOwnerResponse = c.q(DISP, &basset_sei_rewards_dispatcher::msg::QueryMsg::NewOwner {}).ok()?;
+            Some((id_of(&cfg.owner), id_of(&no.new_owner)))
+        }
+        REG => {
+            let st = c.stores.get(&REG)?;
+            let cfg = basset_sei_validators_registry::registry::CONFIG.load(st).ok()?;
+            let no = basset_sei_validators_registry::registry::read_new_owner(st).ok()?;
+            Some((hum(&cfg.owner), hum(&no.new_owner_addr)))
+        }
+        _ => None,
+    }
+}
+
 /// the principal table of DESIGN.md Appendix A, read off the *implementation's* own queries:
 /// Some(true) = sender is a principal of this message, Some(false) = it is not, None = public
 pub fn authorised(c: &Chain, sender: Id, target: Id, call: &Call) -> Option<bool> {
@@ -898,6 +931,38 @@ pub fn check_step(cx: &StepCtx) -> Vec<Violation> {
                     if r.ok {
                         out.push(v("C01", "paid-twice", format!("a second withdraw by {} succeeded", sender)));
                     }
+                    // C06: loss on stake slashed while unbonding is spread pro rata per token type
+                    {
+                        let newly: Vec<&HistView> = post.hist.iter().filter(|h| h.released && !pre.hist.iter().any(|p| p.id == h.id && p.released)).collect();
+                        let arrived = pre.hub_bank.saturating_sub(pre.raw[5]);
+                        let b_tot: u128 = newly.iter().map(|h| floor_mul(h.b_amt, h.b_applied)).sum();
+                        let s_tot: u128 = newly.iter().map(|h| floor_mul(h.s_amt, h.s_applied)).sum();
+                        if !newly.is_empty() && b_tot + s_tot > arrived && b_tot + s_tot <= D {
+                            // exact pro-rata share of what arrived, per token
+                            let b_act = mul_floor(arrived, b_tot, b_tot + s_tot);
+                            let s_act = arrived - b_act;
+                            for (tot, act, lbl) in [(b_tot, b_act, "bsei"), (s_tot, s_act, "stsei")] {
+                                if tot == 0 {
+                                    continue;
+                                }
+                                let side_loss = tot.saturating_sub(act);
+                                for h in newly.iter() {
+                                    let (amt, applied, wr) = if lbl == "bsei" { (h.b_amt, h.b_applied, h.b_withdraw) } else { (h.s_amt, h.s_applied, h.s_withdraw) };
+                                    let u = floor_mul(amt, applied);
+                                    if u == 0 {
+                                        continue;
+                                    }
+                                    let fin = floor_mul(amt, wr);
+                                    let loss = u.saturating_sub(fin);
+                                    let expect = mul_floor(side_loss, u, tot);
+                                    let tol = 6 + amt / D;
+                                    if loss + tol < expect || loss > expect + tol {
+                                        out.push(v("C06", "unbonding-loss-not-pro-rata", format!("release: {} side of batch {} lost {} but its pro-rata share of the side's loss {} is {}", lbl, h.id, loss, side_loss, expect)));
+                                    }
+                                }
+                            }
+                        }
+                    }
                     // release group: paid-out capacity never exceeds arrivals
                     let newly: Vec<&HistView> = post.hist.iter().filter(|h| h.released && !pre.hist.iter().any(|p| p.id == h.id && p.released)).collect();
                     if !newly.is_empty() {
@@ -1060,7 +1125,173 @@ pub fn check_step(cx: &StepCtx) -> Vec<Violation> {
         out.push(v("C11", "unpaused-with-legacy-entries", format!("{} unpaused with {} legacy entries", kind, post.legacy)));
     }
 
+    // ---------------------------------------------------------------- C09: exits
+    if let Op::Tx { sender, call, .. } = op {
+        // a withdrawal pays only released batches: the caller's requests in batches that are not
+        // released must still be there afterwards (otherwise the later claim can never be paid)
+        if kind == "hub.withdraw" && ok {
+            if let Some(rs) = pre.reqs.get(sender) {
+                for (b, x, y) in rs {
+                    let released_now = post.hist.iter().any(|h| h.id == *b && h.released);
+                    if !released_now {
+                        let still = post.reqs.get(sender).map(|q| q.iter().any(|(b2, x2, y2)| b2 == b && x2 == x && y2 == y)).unwrap_or(false);
+                        if !still {
+                            out.push(v("C09", "pending-request-erased-by-withdraw", format!("withdraw by {} erased its request ({}, {}) in unreleased batch {}", sender, x, y, b)));
+                            out.push(v("C07", "pending-request-erased-by-withdraw", format!("withdraw by {} erased its request ({}, {}) in unreleased batch {}", sender, x, y, b)));
+                        }
+                    }
+                }
+            }
+        }
+        // exit paths talk to neither stub
+        let exit_kind = matches!(kind, "hub.bond" | "hub.bondst" | "hub.withdraw" | "reward.claim") || kind.starts_with("tok.");
+        if exit_kind && !matches!(call, Call::Tok(TokMsg::Send(_, _, Hook::Other)) | Call::Tok(TokMsg::SendFrom(_, _, _, Hook::Other))) {
+            for e in cx.effects.iter() {
+                match e {
+                    Effect::Wasm { target, variant, .. } if *target == SWAP || *target == ORACLE => {
+                        out.push(v("C09", "exit-path-calls-stub", format!("{} executed {} on {}", kind, variant, target)));
+                    }
+                    Effect::Query { target, .. } if *target == SWAP || *target == ORACLE => {
+                        out.push(v("C09", "exit-path-queries-stub", format!("{} queried {}", kind, target)));
+                    }
+                    _ => {}
+                }
+            }
+            if cx.deep {
+                // the same operation from the same state with the stubs failing / returning garbage
+                for (mode, so, sp, oo, opx) in [("failing", false, 0u128, false, 0u128), ("garbage", true, u128::MAX / D, true, 1u128)] {
+                    let mut c2 = cx.chain_pre.clone();
+                    c2.swap_ok = so;
+                    c2.swap_p2 = sp;
+                    c2.oracle_ok = oo;
+                    c2.oracle_price = opx;
+                    let r2 = c2.apply(op);
+                    if r2.ok != ok || c2.observe() != cx.chain_post.observe() {
+                        out.push(v("C09", "exit-depends-on-stubs", format!("{} gives a different result with swap/oracle {}", kind, mode)));
+                    }
+                }
+            }
+        }
+    }
+    if cx.deep && cx.envelope && post.q.is_some() && !post.paused {
+        c09_deep(cx, &mut out);
+    }
+
     let _ = USERS;
     let _ = tok_target(op);
     out
+}
+
+/// D5 signature of a matured withdrawal that fails only for lack of funds: ≥ 3 batches released
+/// together whose total slashed amount times their number reaches 10^18
+fn unfunded_probe(c: &Chain, pre_hist: &[HistView], hub_bank: u128, prev_hub_balance: u128, op: &Op) -> Option<bool> {
+    let mut c2 = c.clone();
+    *c2.bank.entry((HUB, 0)).or_insert(0) += 1000;
+    if let Some(st) = c2.stores.get_mut(&HUB) {
+        let _ = basset_sei_hub::state::STATE.update(st, |mut x| -> cosmwasm_std::StdResult<_> {
+            x.prev_hub_balance += cosmwasm_std::Uint128::new(1000);
+            Ok(x)
+        });
+    }
+    let r2 = c2.apply(op);
+    if !r2.ok {
+        return None;
+    }
+    let h2 = c2.hub_history();
+    let newly: Vec<&HistView> = h2.iter().filter(|h| h.released && !pre_hist.iter().any(|p| p.id == h.id && p.released)).collect();
+    let expected: u128 = newly.iter().map(|h| floor_mul(h.b_amt, h.b_applied) + floor_mul(h.s_amt, h.s_applied)).sum();
+    let arrived = hub_bank.saturating_sub(prev_hub_balance);
+    let sl = expected.saturating_sub(arrived);
+    let n = newly.len() as u128;
+    Some(n >= 3 && n.saturating_mul(sl) >= D)
+}
+
+/// C09 "from every state": dry-run exits on clones of the state after this step
+fn c09_deep(cx: &StepCtx, out: &mut Vec<Violation>) {
+    let post = cx.post;
+    let c = cx.chain_post;
+    let booked = post.raw[2] + post.raw[3];
+    // excluded by the property: a validator set slashed to zero
+    if post.delegated == 0 && booked > 0 {
+        return;
+    }
+    // zero-backed pool (D6): tokens outstanding against a pool of zero, before or after the
+    // slashing recognition that every hub entry point performs first
+    let q = post.q.unwrap_or(post.raw);
+    let zero_backed = ((post.raw[2] == 0 || q[2] == 0) && post.supply_b + post.batch.1 > 0) || ((post.raw[3] == 0 || q[3] == 0) && post.supply_s + post.batch.2 > 0);
+    let mut first_holder: Option<(Id, Id)> = None;
+    for (tok, bals) in [(BSEI, &post.bal_b), (STSEI, &post.bal_s)] {
+        for (u, b) in bals.iter() {
+            if !USERS.contains(u) {
+                continue;
+            }
+            if first_holder.is_none() {
+                first_holder = Some((*u, tok));
+            }
+            let mut amts = vec![*b];
+            if *b > 1 {
+                amts.push(*b / 2);
+                amts.push(1);
+            }
+            for a in amts {
+                let mut c2 = c.clone();
+                let op = Op::Tx { sender: *u, target: tok, call: Call::Tok(TokMsg::Send(HUB, a, Hook::Unbond)), funds: vec![] };
+                let r = c2.apply(&op);
+                if !r.ok {
+                    let class = if zero_backed { "exit-blocked:zero-backed-pool" } else { "exit-blocked" };
+                    out.push(v("C09", class, format!("holder {} cannot unbond {} of its {} {}: {}", u, a, b, if tok == BSEI { "bSei" } else { "stSei" }, r.err.replace('"', "'"))));
+                    break;
+                }
+            }
+        }
+    }
+    // requests become withdrawable: epoch passes, somebody unbonds, the unbonding period passes
+    for (u, rs) in post.reqs.iter() {
+        if !USERS.contains(u) || rs.is_empty() {
+            continue;
+        }
+        let mut c2 = c.clone();
+        let in_current = rs.iter().any(|(b, _, _)| *b == post.batch.0);
+        if in_current {
+            c2.advance(post.epoch + 1);
+            match first_holder {
+                Some((h, tok)) => {
+                    let op = Op::Tx { sender: h, target: tok, call: Call::Tok(TokMsg::Send(HUB, 1, Hook::Unbond)), funds: vec![] };
+                    let r = c2.apply(&op);
+                    if !r.ok {
+                        continue; // reported by the dry-run above
+                    }
+                    if !c2.hub_history().iter().any(|h| h.id == post.batch.0) {
+                        out.push(v("C09", "not-undelegated-after-epoch", format!("batch {} not undelegated by the first unbond after the epoch period", post.batch.0)));
+                        continue;
+                    }
+                }
+                None => continue,
+            }
+        }
+        c2.advance(post.unbonding.max(c2.unbonding_time) + 1);
+        // the WithdrawableUnbonded query prices the claim with the rates recorded at undelegation;
+        // the release that the withdrawal itself performs re-prices every batch it releases by
+        // arrived / expected. A lower bound of the claim after that: each request loses at most 5
+        // base units to the floors of the weight, the slashed share, the new rate and the payout.
+        let est = c2.hub_withdrawable(*u).unwrap_or(0);
+        let pre2 = snap(&c2);
+        let expected: u128 = pre2.hist.iter().filter(|h| !h.released).map(|h| floor_mul(h.b_amt, h.b_applied) + floor_mul(h.s_amt, h.s_applied)).sum();
+        let arrived = pre2.hub_bank.saturating_sub(pre2.raw[5]);
+        let k = rs.len() as u128 + 1;
+        // (even without slashing the release re-rounds each rate to floor(amount·rate)/amount)
+        let due = (if arrived >= expected { est } else { mul_floor(est, arrived, expected.max(1)) }).saturating_sub(5 * k);
+        if due >= 1 {
+            let op = Op::Tx { sender: *u, target: HUB, call: Call::Hub(HubMsg::Withdraw), funds: vec![] };
+            let mut c3 = c2.clone();
+            let r = c3.apply(&op);
+            if !r.ok {
+                match unfunded_probe(&c2, &pre2.hist, pre2.hub_bank, pre2.raw[5], &op) {
+                    Some(true) => out.push(v("C09", "release-overallocated:n-times-slash-ge-1e18", format!("withdraw by {} after epoch + unbonding period fails for lack of funds", u))),
+                    Some(false) => out.push(v("C09", "matured-claim-unfunded", format!("withdraw by {} after epoch + unbonding period fails for lack of funds ({} due)", u, due))),
+                    None => out.push(v("C09", "matured-withdraw-failed", format!("withdraw by {} after epoch + unbonding period fails with {} due: {}", u, due, r.err.replace('"', "'")))),
+                }
+            }
+        }
+    }
 }
